@@ -95,8 +95,31 @@ def coherent(t, m, report):
         return D[k, :] if ax == 'observation' else D[:, k]
     nzD = int(np.count_nonzero(D))
     bad = None
+    # every accessor converts the stored layout as a side effect, so only the first one sees the layout the
+    # history left behind: which accessor (and which axis) goes first rotates with the concrete state
+    from .. import observe as O
+    rot = O.concrete_key(t) % 8
     if N and Mm:
-        for ax, ids in (('observation', oids), ('sample', sids)):
+        if rot == 0:
+            nz0 = sorted((str(o), str(s)) for o, s in t.nonzero())
+            if nz0 != sorted((oids[a], sids[b]) for a in range(N) for b in range(Mm) if D[a, b] != 0):
+                bad = ('nonzero', 'nonzero() as the first access after the history lists %r' % (nz0,))
+        elif rot == 1:
+            if not np.array_equal(np.asarray(t.sum('sample'), float), D.sum(axis=0)) and \
+                    not _close(t.sum('sample'), D.sum(axis=0), float(np.abs(D).sum())):
+                bad = ('sum', 'sum(sample) as the first access after the history: %r' % (list(t.sum('sample')),))
+        elif rot == 2:
+            g0 = [[float(t.get_value_by_ids(o, s)) for s in sids] for o in oids]
+            if not np.array_equal(np.asarray(g0, float), D):
+                bad = ('get_value_by_ids', 'get_value_by_ids as the first access after the history: %r' % (g0,))
+        elif rot == 3:
+            for (v1, i1, _), (v2, i2, _) in t.iter_pairwise(axis='sample'):
+                if not np.array_equal(np.asarray(v1, float), D[:, sids.index(str(i1))]) or \
+                        not np.array_equal(np.asarray(v2, float), D[:, sids.index(str(i2))]):
+                    bad = ('iter_pairwise', 'iter_pairwise(sample) as the first access after the history disagrees')
+    axes_order = (('observation', oids), ('sample', sids)) if rot % 2 == 0 else (('sample', sids), ('observation', oids))
+    if N and Mm:
+        for ax, ids in axes_order:
             for k, i in enumerate(ids):
                 v = t.data(i, ax, dense=True)
                 if not np.array_equal(np.asarray(v, float), vec(ax, k)):
